@@ -36,8 +36,10 @@ const (
 // and returned frames or an error: linear in what has ARRIVED (copying the frame out of the read
 // buffer, header strings, an error text quoting the input: the worst legitimate factor observed is
 // ~24x, mosn.io/pkg/header.decodeStr formats the whole header block with %v), never in what a length
-// field merely announces.
-func allocBound(n int) uint64 { return uint64(32*n + 64<<10) }
+// field merely announces. The constant covers fixed-size scratch memory (apache/thrift reads a string
+// of any announced length through a 32 KiB chunk plus a growing bytes.Buffer: ~100 KiB whatever the
+// announced length; hessian's 4 KiB reader; pooled frame objects).
+func allocBound(n int) uint64 { return uint64(32*n + 256<<10) }
 
 // needMoreBound bounds the allocation of a call that answers need-more: the announced bytes have by
 // definition not arrived, nothing may be allocated for them (64 KiB covers pooled scratch objects).
@@ -94,7 +96,7 @@ func topAllocSite(f func()) string {
 			frames := runtime.CallersFrames(r.Stack())
 			for {
 				fr, more := frames.Next()
-				if fr.Function != "" && !strings.HasPrefix(fr.Function, "runtime.") && !strings.HasPrefix(fr.Function, "bytes.") && !strings.HasPrefix(fr.Function, "strings.") && !strings.HasPrefix(fr.Function, "fmt.") {
+				if fr.Function != "" && !strings.HasPrefix(fr.Function, "runtime.") && !strings.HasPrefix(fr.Function, "verif/") && !strings.HasPrefix(fr.Function, "io.") && !strings.HasPrefix(fr.Function, "bytes.") && !strings.HasPrefix(fr.Function, "strings.") && !strings.HasPrefix(fr.Function, "fmt.") {
 					name = fr.Function
 					break
 				}
@@ -218,7 +220,7 @@ func checkDecode(c *decodeCase, input []byte) result {
 		}
 		if min > bound {
 			site := topAllocSite(func() { decodeOnce(c, input) })
-			res.fail = &failure{c.Proto + "/allocates-beyond-arrived-bytes:" + site, fmt.Sprintf("%d bytes of input (outcome %s, %d frames, %s): the Decode calls allocated %d bytes (three measurements, minimum), bound 32*len+64KiB = %d; largest allocation site %s",
+			res.fail = &failure{c.Proto + "/allocates-beyond-arrived-bytes:" + site, fmt.Sprintf("%d bytes of input (outcome %s, %d frames, %s): the Decode calls allocated %d bytes (three measurements, minimum), bound 32*len+256KiB = %d; largest allocation site %s",
 				len(input), res.first, res.frames, res.errText, min, bound, site)}
 			return res
 		}
